@@ -430,6 +430,20 @@ fn edits(tier: Tier) -> Vec<Case> {
                 v.remove(i);
             });
             out.push(mk(s, e, format!("delete token {pos}")));
+            // the text cut after this token and ended by a lone carriage return / CRLF / nothing:
+            // end-of-input diagnostics sit on the last line terminator
+            for (term, what) in [("\r", "CR"), ("\r\n", "CRLF"), ("", "nothing")] {
+                if term != "\r" && tier != Tier::Thorough {
+                    continue;
+                }
+                let (s, e) = apply(pos, &|v, i| {
+                    v.truncate(i + 1);
+                    if !term.is_empty() {
+                        v.push(term.to_string());
+                    }
+                });
+                out.push(mk(s, e, format!("truncate after token {pos}, end with {what}")));
+            }
             let (s, e) = apply(pos, &|v, i| {
                 let t = v[i].clone();
                 v.insert(i, t);
